@@ -83,6 +83,17 @@ static void prop_c04(Tape &t, Result &r) {
     files[L.main] = gm::soup(t, false);
     mutated = true;
     r.cls("gen:token-soup");
+  } else if (et.chance(1, 12)) {
+    // a long statement sequence (the grammar is right-recursive in MOREP: every ';' is one level of descent)
+    int n = 250 + (int)et.pick(200);
+    std::string src = "x1 := 2;\nLOOP x1 DO\n";
+    for (int i = 0; i < n; i++) src += "x" + std::to_string(i % 3) + " := x" + std::to_string((i + 1) % 3) + (i % 40 ? "" : " + 1") + ";\n";
+    src += "x2 := 0 END";
+    if (et.chance(1, 3)) src += ";";  // excess semicolon: not a sentence
+    files.clear();
+    files[L.main] = src;
+    mutated = true;
+    r.cls("gen:long-statement-sequence");
   } else
     r.cls("gen:unmutated");
   judge_c04(files, L.main, mutated, r);
